@@ -2,10 +2,11 @@
    One case = one response body pushed through the REAL Transport.autoDecodeResponseBody and read to
    io.EOF with scripted caller buffers (transport-level: scripted io.Reader body; end to end: the network
    reads recorded underneath the decoder).  The external libraries are an ORACLE TABLE: the real answers
-   of mime.ParseMediaType, htmlcharset.Lookup/ianaindex, charsets.FindEncoding and of the x/text
+   of mime.ParseMediaType, htmlcharset.Lookup/ianaindex, charsets.prescan / htmlcharset.Lookup inside charsets.FindEncoding (whose byte-order-mark layer is
+   modelled, Model/CharsetFind.v) and of the x/text
    decoders for exactly the calls the model makes (arguments are compared, a call outside the table
    poisons the run).  Encodings are identified by their canonical name. *)
-From ReqV Require Export Lib.Bytes Model.Charset.
+From ReqV Require Export Lib.Bytes Model.Charset Model.CharsetFind.
 
 Inductive rkind := KRaw | KHeader | KSniff.
 Definition rkind_eqb (a b : rkind) : bool :=
@@ -23,7 +24,9 @@ Inductive c15_case :=
     (* oracle table *)
     (t_parse : ct_parse)                              (* mime.ParseMediaType(ct): charset parameter *)
     (t_lookup : bytes * option bytes)                 (* lowered label -> canonical name (Lookup, then ianaindex) *)
-    (t_find : option (N * option bytes))              (* FindEncoding(first n bytes of the body = the first non-empty read) -> name *)
+    (t_first : option N)                              (* length of the first non-empty read (a prefix of the body) *)
+    (t_boms : list (bytes * option bytes))            (* htmlcharset.Lookup on the labels of the marks prefixing it -> name *)
+    (t_prescan : option bytes)                        (* charsets.prescan(first read) -> name (None = nil encoding) *)
     (t_stream : list (bytes * bytes))                 (* name -> transform.Reader over the body's chunks, drained *)
     (takes : list (N * bool))                         (* hand-out schedule of the reference transform.Reader *)
     (* the body as the network delivers it, the caller's buffer sizes (cycled), number of calls made *)
@@ -41,10 +44,21 @@ Definition tbl_parse (ct : bytes) (a : ct_parse) : bytes -> ct_parse :=
 Definition tbl_lookup (t : bytes * option bytes) : bytes -> option bytes :=
   fun x => if bytes_eqb x (fst t) then snd t else Some poison.
 
-Definition tbl_find (body : bytes) (t : option (N * option bytes)) : bytes -> option bytes :=
-  fun x => match t with
-           | Some (k, a) => if bytes_eqb x (firstn (N.to_nat k) body) then a else Some poison
-           | None => Some poison
+(* htmlcharset.Lookup as FindEncoding calls it (labels of the BOM table): encoding = its canonical name *)
+Definition tbl_lookup_name (t : list (bytes * option bytes)) : bytes -> option (bytes * bytes) :=
+  fun lbl => match find (fun x => bytes_eqb (fst x) lbl) t with
+             | Some (_, Some n) => Some (n, n)
+             | Some (_, None) => None
+             | None => Some (poison, poison)
+             end.
+
+(* charsets.prescan, asked exactly for the first non-empty read *)
+Definition tbl_prescan (body : bytes) (first : option N) (a : option bytes) : bytes -> option (bytes * bytes) :=
+  fun x => match first with
+           | Some k => if bytes_eqb x (firstn (N.to_nat k) body)
+                       then match a with Some n => Some (n, n) | None => None end
+                       else Some (poison, poison)
+           | None => Some (poison, poison)
            end.
 
 Definition tbl_stream (body : bytes) (t : list (bytes * bytes)) : bytes -> list bytes -> bytes :=
@@ -98,11 +112,11 @@ Definition kind_of (i : install bytes) : rkind :=
 
 Definition c15_check (c : c15_case) : bool :=
   match c with
-  | C15Case disable sel resp_ae ct t_parse t_lookup t_find t_stream takes
+  | C15Case disable sel resp_ae ct t_parse t_lookup t_first t_boms t_prescan t_stream takes
             chunks eof_last pattern ncalls o_kind o_calls o_out =>
       let body := concat chunks in
       let ds := tbl_stream body t_stream in
-      let fe := tbl_find body t_find in
+      let fe := find_encoding_m (tbl_lookup_name t_boms) (tbl_prescan body t_first t_prescan) in
       let tk := map (fun x => (N.to_nat (fst x), snd x)) takes in
       let pat := map N.to_nat pattern in
       let i := decide (tbl_parse ct t_parse) (tbl_lookup t_lookup) disable sel resp_ae ct in
